@@ -20,6 +20,7 @@ import traceback
 ROOT = os.path.dirname(os.path.dirname(os.path.abspath(__file__)))
 REPO = os.environ.get("VERIF_REPO", "/repo")
 NPROC = int(os.environ.get("VERIF_NPROC", "16"))
+OUT = os.environ.get("VERIF_OUT", ROOT)  # evidence/ and replays/ go here (mutation runs redirect it)
 
 
 def _setup_path():
@@ -241,6 +242,12 @@ def worker(args):
     _setup_path()
     t0 = time.time()
     try:
+        import warnings
+
+        import numpy as _np
+
+        warnings.filterwarnings("ignore")
+        _np.seterr(all="ignore")
         prop = load_prop(pid)
         from vf.trace import quiet_logging
 
@@ -271,7 +278,7 @@ def worker(args):
 def write_replay(pid, sig, case, msg, detail):
     import re
 
-    d = os.path.join(ROOT, "replays")
+    d = os.path.join(OUT, "replays")
     os.makedirs(d, exist_ok=True)
     name = re.sub(r"[^A-Za-z0-9_.-]+", "_", sig)[:100]
     path = os.path.join(d, f"{pid}-{name}.json")
@@ -456,8 +463,8 @@ def main(argv=None):
         "wall_s": round(wall, 2),
         "violations": len(violations_out),
     }
-    os.makedirs(os.path.join(ROOT, "evidence"), exist_ok=True)
-    with open(os.path.join(ROOT, "evidence", f"{pid}.json"), "w") as f:
+    os.makedirs(os.path.join(OUT, "evidence"), exist_ok=True)
+    with open(os.path.join(OUT, "evidence", f"{pid}.json"), "w") as f:
         json.dump(evidence, f, indent=1, default=str)
 
     # report
